@@ -3,4 +3,3 @@ import McpModel.Base.Proto
 import McpModel.EventStore.Props
 import McpModel.EventStore.Driver
 import McpModel.Notify.Props
-import McpModel.Notify.Driver
